@@ -1271,6 +1271,16 @@ namespace awkward {
       return rpad_axis0(target, false);
     }
     if (posaxis == depth + 1) {
+      if (parameter_equals("__array__", "\"string\"")  ||
+          parameter_equals("__array__", "\"bytestring\"")) {
+        throw std::invalid_argument(
+          std::string("axis exceeds the depth of this array (strings are not padded "
+                      "character by character)") + FILENAME(__LINE__));
+      }
+      if (length() != 0  &&  target > kMaxInt64 / 8 / length()) {
+        throw std::invalid_argument(
+          std::string("pad target is too large") + FILENAME(__LINE__));
+      }
       int64_t tolength = 0;
       IndexOf<T> offsets(offsets_.length());
       struct Error err1 = kernel::ListOffsetArray_rpad_length_axis1<T>(
@@ -1316,6 +1326,20 @@ namespace awkward {
       return rpad_axis0(target, true);
     }
     else if (posaxis == depth + 1) {
+      if (parameter_equals("__array__", "\"string\"")  ||
+          parameter_equals("__array__", "\"bytestring\"")) {
+        throw std::invalid_argument(
+          std::string("axis exceeds the depth of this array (strings are not padded "
+                      "character by character)") + FILENAME(__LINE__));
+      }
+      if (target < 0) {
+        throw std::invalid_argument(
+          std::string("pad target must not be negative") + FILENAME(__LINE__));
+      }
+      if (length() != 0  &&  target > kMaxInt64 / 8 / length()) {
+        throw std::invalid_argument(
+          std::string("pad target is too large") + FILENAME(__LINE__));
+      }
       Index64 starts(offsets_.length() - 1);
       Index64 stops(offsets_.length() - 1);
 
